@@ -293,6 +293,23 @@ def m_into(it, args, callee, depth):
     env = getattr(it, "cur_env", {}) or {}
     tgt = it.resolve_generic(tgt, env) if isinstance(tgt, str) else tgt
     dv = A.deref_all(it, v)
+    # a user-written `impl From<Src> for Dst` (e.g. polar/spherical <-> Cartesian) is a real conversion: run it
+    src = it.resolve_generic(ga[0], env) if (is_into and ga) else None
+    if isinstance(src, str) and isinstance(tgt, str):
+        idx = getattr(it.prog, "_from_impls", None)
+        if idx is None:
+            idx = {}
+            for pth in it.prog.bodies:
+                k0 = pth.find("<impl core::convert::From<")
+                if k0 >= 0 and pth.endswith(">::from") and "> for " in pth:
+                    inner = pth[k0 + len("<impl core::convert::From<"):-len(">::from")]
+                    a_, _, b_ = inner.rpartition("> for ")
+                    idx[(a_.replace(" ", ""), b_.replace(" ", ""))] = pth
+            it.prog._from_impls = idx
+        norm = lambda t: t.replace("retrofire_core::", "").replace(" ", "")  # noqa: E731
+        hit = idx.get((norm(src), norm(tgt)))
+        if hit:
+            return it.call_body(it.prog.bodies[hit], [v], depth + 1)
     if isinstance(tgt, str):
         w = _wrap_for(tgt)
         if w and isinstance(dv, tuple) and dv[0] == "array":
